@@ -17,6 +17,7 @@ Contract on the real `pytezos.michelson.macros.expand_macro` and, through its di
               trees such as PAAR, PAIIR, PPAIR) raises instead of returning code
     raises.arity      a wrong number of code arguments raises
     ensures.dispatch  exactly one registered regex matches a macro name
+    ensures.parser    michelson_to_micheline('{ NAME annots code.. }') is exactly [expand_macro(NAME, annots, code..)]
 
 Names: ALL strings accepted by the regexes registered in `macros.macros` (read live) up to the length bound, plus all
 names of the documented grammar up to the same bound (so a macro the module does not know is reported too).
@@ -43,6 +44,9 @@ def replay(case):
         f = K.check_inverse(mac.expand_macro, name)
     elif 'arity' in case:
         f = [x for x in K.check_arity(mac.expand_macro, name) if x[3].get('arity') == case['arity']]
+    elif case.get('parser'):
+        from pytezos.michelson.parse import michelson_to_micheline as m2m
+        f = K.check_parser(m2m, mac.expand_macro, name)
     elif case.get('dispatch'):
         n = sum(1 for rx, h in mac.macros if rx.findall(name))
         f = [('ensures.dispatch', f'{n} regexes match {name}', '', {})] if n != 1 else []
@@ -90,6 +94,7 @@ def run(ck: Check) -> int:
     from specs import C19_macros as M
     mac = _expand()
     from pytezos.michelson.tags import prim_tags
+    from pytezos.michelson.parse import michelson_to_micheline as m2m
     ck.function(mac.expand_macro)
     for rx, h in mac.macros:
         ck.function(h, name=f'pytezos.michelson.macros:{h.__name__}')
@@ -135,6 +140,7 @@ def run(ck: Check) -> int:
                 findings += f
                 n_runs += n
                 findings += K.check_arity(mac.expand_macro, name)
+                findings += K.check_parser(m2m, mac.expand_macro, name)
                 if kind == 'pair' and 'UN' + name in names:
                     findings += K.check_inverse(mac.expand_macro, name)
                     n_runs += 2
